@@ -14,7 +14,7 @@ ASSUMPTIONS = ["exact-regime theorems over R; tolerance bands are sampled, not p
 # each ATOL decision (band shortcut or filtered near-identity gate) costs at most 1e-7 in the operator; a proposal has at
 # most 8 gates: a residual up to 8e-7 is tolerance-sized, anything larger is a different defect
 BAND_RESIDUAL = 8e-7
-BAND_FLOOR = 9e-9
+BAND_FLOOR = 9e-8
 
 
 def _first_failing_gate(f):
@@ -56,8 +56,8 @@ def cls_atol_band(f):
     if g is None:
         return False
     d, _ = _proposal_distance(g, f["case"]["pass"][1])
-    # ... and not closer than the checker's own absolute tolerance: a refusal of a proposal that is right to 1e-8
-    # is another defect (the checker rejecting what it should accept), never this finding
+    # ... and not closer than the checker's own absolute tolerance (ATOL = 1e-7 since fix b507e3a): a refusal of a
+    # proposal that is right to the tolerance is another defect (the checker rejecting what it should accept)
     return d is not None and BAND_FLOOR <= d <= BAND_RESIDUAL
 
 
